@@ -318,21 +318,28 @@ impl<L: LSPLang> Backend<L> {
     let mut diagnostics = self
       .get_diagnostics(&uri, &versioned)
       .ok_or(LspError::NoActionableFix)?;
-    diagnostics.sort_by_key(|d| (d.range.start, d.range.end));
+    let mut fixes: Vec<_> = diagnostics
+      .drain(..)
+      .filter_map(|d| {
+        let rewrite_data = RewriteData::from_value(d.data?)?;
+        // the fix can replace more than the matched node
+        let range = rewrite_data.range.unwrap_or(d.range);
+        Some((range, rewrite_data.fixed))
+      })
+      .collect();
+    fixes.sort_by_key(|(range, _)| (range.start, range.end));
     let mut last = Position {
       line: 0,
       character: 0,
     };
-    let edits: Vec<_> = diagnostics
+    let edits: Vec<_> = fixes
       .into_iter()
-      .filter_map(|d| {
-        if d.range.start < last {
+      .filter_map(|(range, fixed)| {
+        if range.start < last {
           return None;
         }
-        let rewrite_data = RewriteData::from_value(d.data?)?;
-        let edit = TextEdit::new(d.range, rewrite_data.fixed);
-        last = d.range.end;
-        Some(edit)
+        last = range.end;
+        Some(TextEdit::new(range, fixed))
       })
       .collect();
     if edits.is_empty() {
